@@ -82,7 +82,7 @@ func (gs GenesisState) validateAccountVestingPools() error {
 		numOfAddress := 0
 
 		for _, avtCheck := range avts {
-			if avt.Owner == avtCheck.Owner {
+			if sameAddress(avt.Owner, avtCheck.Owner) {
 				numOfAddress++
 			}
 			if numOfAddress > 1 {
@@ -95,6 +95,23 @@ func (gs GenesisState) validateAccountVestingPools() error {
 		}
 	}
 	return nil
+}
+
+// sameAddress tells if two bech32 strings name the same account
+// (bech32 also accepts the all upper case spelling)
+func sameAddress(address1 string, address2 string) bool {
+	if address1 == address2 {
+		return true
+	}
+	accAddress1, err := sdk.AccAddressFromBech32(address1)
+	if err != nil {
+		return false
+	}
+	accAddress2, err := sdk.AccAddressFromBech32(address2)
+	if err != nil {
+		return false
+	}
+	return accAddress1.Equals(accAddress2)
 }
 
 func (gst GenesisVestingType) Validate() error {
